@@ -339,6 +339,31 @@ func runC16(r *rt.Run, tier string) {
 			inKeyring = true
 		}
 	}
+	// a third of the packages carry a second, genuine signature member for
+	// another role, made by another key (the other keyring candidate): a check
+	// for the asked role is decided by that role's member alone, whoever signed
+	// the other one
+	role2 := ""
+	if t.Bool(1, 3, "c16.second-role") {
+		for _, ro := range c16Roles {
+			if ro != role && ro != askRole {
+				role2 = ro
+			}
+		}
+		signer2 := pgpKeys[0]
+		if signerIdx == 0 {
+			signer2 = pgpKeys[1]
+		}
+		sigM2 := &arMember{Name: "_gpg" + role2, RawName: "_gpg" + role2, Timestamp: 1_600_000_000, Mode: "100644", Data: detachSign(signer2, signed)}
+		at := 1 // (right after debian-binary when the first signature member was replaced by a copy)
+		for i, m := range ms {
+			if m == sigM {
+				at = i
+			}
+		}
+		ms = append(ms[:at], append([]*arMember{sigM2}, ms[at:]...)...)
+		r.Probe("second-role-signed-by-another-key")
+	}
 	img := renderAr(cloneMembers(ms))
 	if tornBy > 0 && tornBy < len(img) {
 		img = img[:len(img)-tornBy]
@@ -394,7 +419,7 @@ func runC16(r *rt.Run, tier string) {
 					a.seq = append(a.seq, "after a successful check, CheckDebsig with a nil keyring succeeded")
 				}
 				for _, ro := range c16Roles {
-					if ro != role {
+					if ro != role && ro != role2 {
 						if _, err := d.CheckDebsig(keyring, ro); err == nil {
 							a.seq = append(a.seq, "after a successful check, CheckDebsig for the absent role "+ro+" succeeded")
 						}
@@ -616,5 +641,5 @@ func init() {
 		},
 		Assumptions: []string{"x/crypto/openpgp both makes and verifies the signatures: a bug common to both directions is invisible", "test keys are committed fixtures (key generation is not reproducible in Go); signing with a fixed signature time is byte-deterministic"},
 	})
-	propProbes["C16"] = []string{"empty-decoy-as-last-member", "data-member-stored-before-control-member", "keyring-starts-with-an-expired-key", "one-package-checked-by-concurrent-callers", "decoy-whose-header-read-fails", "tampered-twin-verified-concurrently", "debian-binary-with-further-lines", "loads-interleaved", "repeated-checks-on-one-package", "verification-succeeded", "payload-read-after-verification", "decoy-with-identical-name"}
+	propProbes["C16"] = []string{"second-role-signed-by-another-key", "empty-decoy-as-last-member", "data-member-stored-before-control-member", "keyring-starts-with-an-expired-key", "one-package-checked-by-concurrent-callers", "decoy-whose-header-read-fails", "tampered-twin-verified-concurrently", "debian-binary-with-further-lines", "loads-interleaved", "repeated-checks-on-one-package", "verification-succeeded", "payload-read-after-verification", "decoy-with-identical-name"}
 }
